@@ -1699,6 +1699,9 @@ def _compute_ports(netlist: _nir.Netlist):
                 name = name_table[value]
             else:
                 name = f"port${value[0].cell}${value[0].bit}"
+                # A signal of this module may happen to have the same name.
+                while name in module.ports or name in module.signal_names.values():
+                    name += "$"
             module.ports[name] = (value, flow)
             visited.update(value)
 
